@@ -107,6 +107,10 @@ def lift(v):
     raise Unsupported("lift %r" % (v,))
 
 
+class _Break(Exception): pass
+class _Continue(Exception): pass
+
+
 class SBool:
     def __init__(self, e): self.e = e
     def __bool__(self): return Engine.cur.decide(self)
@@ -208,6 +212,22 @@ class SStr:
         if not isinstance(o, (str, SStr)): return True
         return sb(z3.Not(self._eq_expr(o)))
     __hash__ = None
+    def _lt_expr(self, o, or_equal=False):
+        """lexicographic order of two concrete-length strings of (possibly symbolic) code points"""
+        o = SStr.of(o)
+        n = min(len(self), len(o))
+        a, b = [lift_c(c) for c in self.chars], [lift_c(c) for c in o.chars]
+        cases = []
+        for i in range(n):
+            cases.append(z3.And([a[j] == b[j] for j in range(i)] + [a[i] < b[i]]))
+        tail_ok = len(self) < len(o) or (or_equal and len(self) == len(o))
+        if tail_ok:
+            cases.append(z3.And([a[j] == b[j] for j in range(n)] + [z3.BoolVal(True)]))
+        return z3.Or(cases + [z3.BoolVal(False)])
+    def __lt__(self, o): return sb(self._lt_expr(o))
+    def __le__(self, o): return sb(self._lt_expr(o, True))
+    def __gt__(self, o): return sb(SStr.of(o)._lt_expr(self))
+    def __ge__(self, o): return sb(SStr.of(o)._lt_expr(self, True))
     def find(self, sub, start=0):
         sub = SStr.of(sub)
         n = len(sub)
@@ -392,7 +412,14 @@ class Frame:
                 cv = lambda x: None if x is None else concretize(self.ev(x))
                 cont[slice(cv(t.slice.lower), cv(t.slice.upper), cv(t.slice.step))] = list(v)
             else:
-                cont[concretize(self.ev(t.slice))] = v
+                k = self.ev(t.slice)
+                if isinstance(k, SInt): k = concretize(k)
+                elif isinstance(k, SStr): raise Unsupported("symbolic string as subscript")
+                cont[k] = v          # (a model object such as a modelled datetime is a key by identity)
+        elif isinstance(t, ast.Attribute):
+            obj = self.ev(t.value)
+            if isinstance(obj, (SInt, SBool, SStr)): raise Unsupported("attribute assignment on a symbolic value")
+            setattr(obj, t.attr, v)          # plain Python object (the state the interpreted method updates)
         else: raise Unsupported("assign target %s" % type(t).__name__)
     def st_If(self, s):
         if truth(self.ev(s.test)): self.exec_block(s.body)
@@ -402,7 +429,27 @@ class Frame:
         while truth(self.ev(s.test)):
             n += 1
             if n > Engine.cur.max_loop: raise Unsupported("unwinding bound exceeded line %d" % s.lineno)
-            self.exec_block(s.body)
+            try:
+                self.exec_block(s.body)
+            except _Break: break
+            except _Continue: continue
+    def st_For(self, s):
+        """for over an iterable of concrete length (list, tuple, range, dict, ...); elements may be symbolic"""
+        if s.orelse: raise Unsupported("for/else")
+        it = self.ev(s.iter)
+        if isinstance(it, (SInt, SBool)): raise Unsupported("for over a symbolic value")
+        if isinstance(it, SStr): it = [mk([c]) for c in it.chars]
+        n = 0
+        for x in list(it):
+            n += 1
+            if n > Engine.cur.max_loop: raise Unsupported("unwinding bound exceeded line %d" % s.lineno)
+            self.assign(s.target, x)
+            try:
+                self.exec_block(s.body)
+            except _Break: break
+            except _Continue: continue
+    def st_Break(self, s): raise _Break()
+    def st_Continue(self, s): raise _Continue()
     def st_Try(self, s):
         if s.finalbody or s.orelse: raise Unsupported("try/finally/else")
         try:
